@@ -287,7 +287,8 @@ def fit(x, p):
                 'newline)', And(len(back) == n + 1,
                                 back[n - 2] == exp_seam[0],
                                 back[n - 1] == exp_seam[1],
-                                back[n] == 10, back[0] == code[0],
+                                back[n] == 10,
+                                back[0] == Ite(code[0] == 13, 32, code[0]),
                                 csize is None))
 
 
